@@ -3,7 +3,8 @@
    N, every schedule = list of events, every analysis / freshness oracle / initial cache); the remaining ones are the
    denotational confluence core and step-local lemmas they are built from. *)
 From Coq Require Import List Arith Bool PeanoNat.
-From C07 Require Import Model ProofsSeq Proofs ProofsSched ProofsInv Statement ProofsMain.
+From C07 Require Import Model ProofsSeq Proofs ProofsSched ProofsInv Statement ProofsMain Fine ProofsFine ProofsFineVerdict Blocker ProofsBlocker.
+From Gen Require Import C07Protocol.
 Import ListNotations.
 
 Section P.
@@ -121,6 +122,86 @@ Print Assumptions impl_step_sequential.
 Print Assumptions classification_agrees.
 Print Assumptions loads_within_done.
 Print Assumptions notify_bookkeeping.
+
+(* ---- module-granular refinement (Fine.v): per-module analysis / write / commit_module, sharded store with write locks *)
+
+(* (a) every run of the fine model projects to a run of the coarse model, whatever the commit protocol *)
+Theorem fine_refines_coarse : forall (Src Iface Errs : Type) nodes deps src ai am fr mods shard pi pm sched (fs fs' : fstate Iface Errs),
+  frun Src Iface Errs nodes deps src ai am fr mods shard pi pm fs sched = Some fs' ->
+  run Src Iface Errs nodes deps src ai am fr (co fs) (proj_run Src Iface Errs nodes deps src ai am fr mods shard pi pm fs sched) = Some (co fs').
+Proof. exact fine_refines_all. Qed.
+
+(* ... so the coarse theorems transfer; the headline one restated on the fine model *)
+Theorem fine_parallel_eq_sequential : forall (Src Iface Errs : Type) nodes deps src ai am fr i0 e0 mods shard pi pm N sched (fs : fstate Iface Errs),
+  wf nodes deps ->
+  frun Src Iface Errs nodes deps src ai am fr mods shard pi pm (finit Iface Errs nodes deps i0 e0 N) sched = Some fs ->
+  finished Iface Errs nodes N (co fs) = true ->
+  forall s, s_iface (sto (co fs)) s = s_iface (run_sequential Src Iface Errs nodes deps src ai am fr i0 e0) s
+         /\ s_errs (sto (co fs)) s = s_errs (run_sequential Src Iface Errs nodes deps src ai am fr i0 e0) s.
+Proof. exact fine_par_eq_seq. Qed.
+
+(* (b) protocol "commit_module at the end of every per-module loop body": in every reachable state a worker that is idle,
+   between modules or analysing a module holds NO shard write lock (it holds one only between a module's write and
+   that module's commit), for every DAG, module/shard assignment, N and schedule *)
+Theorem lock_released_per_module : lock_safe true true.
+Proof. exact safe_both. Qed.
+
+(* ... and the protocol without the per-module commit is refuted (two workers, colliding shard: the holder is analysing its
+   next module, the other worker's write is blocked) *)
+Theorem lock_released_per_module_refuted : lock_unsafe true false /\ (forall pm, lock_unsafe false pm).
+Proof. exact (conj unsafe_impl unsafe_iface). Qed.
+
+(* the verdict for the protocol the CURRENT source follows (flags regenerated by tools/extractors/t07.py) *)
+Theorem current_code_lock_verdict : lock_verdict pm_iface pm_impl.
+Proof. exact (lock_verdict_holds pm_iface pm_impl). Qed.
+
+(* fail-closed: type-checks only while the extracted flags are (true, true) *)
+Theorem current_code_commits_per_module : lock_safe pm_iface pm_impl.
+Proof. exact safe_both. Qed.
+
+Print Assumptions fine_refines_coarse.
+Print Assumptions fine_parallel_eq_sequential.
+Print Assumptions lock_released_per_module.
+Print Assumptions lock_released_per_module_refuted.
+Print Assumptions current_code_lock_verdict.
+Print Assumptions current_code_commits_per_module.
+
+(* ---- blocking errors and worker crashes (Blocker.v) *)
+
+(* whatever happens (blocker replies, crashes), the scheduler part of the run is a run of the scheduler model, so every
+   invariant above holds up to the abort *)
+Theorem blocker_run_is_coarse_run : forall (Src Iface Errs Blk : Type) nodes deps src ai am fr blk i0 e0 N sched (bs : bstate Iface Errs Blk),
+  brun Src Iface Errs Blk nodes deps src ai am fr blk (binit Iface Errs Blk nodes deps i0 e0 N) sched = Some bs ->
+  run_parallel Src Iface Errs nodes deps src ai am fr i0 e0 N (bproj sched) = Some (bco bs).
+Proof. exact ProofsBlocker.blocker_run_is_coarse_run. Qed.
+
+(* every diagnostic printed before the abort is the sequential diagnostic of its SCC *)
+Theorem blocker_run_diagnostics_sequential : forall (Src Iface Errs Blk : Type) nodes deps src ai am fr blk i0 e0 N,
+  wf nodes deps -> forall sched (bs : bstate Iface Errs Blk),
+  brun Src Iface Errs Blk nodes deps src ai am fr blk (binit Iface Errs Blk nodes deps i0 e0 N) sched = Some bs ->
+  forall s e, In (s, e) (flushed (bco bs)) -> s_errs (run_sequential Src Iface Errs nodes deps src ai am fr i0 e0) s = Some e.
+Proof. exact ProofsBlocker.blocker_run_diagnostics_sequential. Qed.
+
+(* PARTIAL form of "the parallel run reports the sequential blocker": status 2, and the reported blocker is the blocking error
+   that the sequential semantics assigns to SOME stale SCC (the sequential one when only one SCC blocks) *)
+Theorem blocker_run_reports_sequential_blocker_partial : forall (Src Iface Errs Blk : Type) nodes deps src ai am fr blk i0 e0 N,
+  wf nodes deps -> forall sched (bs : bstate Iface Errs Blk) b,
+  brun Src Iface Errs Blk nodes deps src ai am fr blk (binit Iface Errs Blk nodes deps i0 e0 N) sched = Some bs ->
+  aborted bs = Some (Reported b) ->
+  bstatus Iface Errs Blk bs = 2
+  /\ exists s, In s nodes /\ stale Src Iface Errs nodes deps src ai am fr i0 e0 s
+       /\ blk (src s) (view_of Iface (s_iface (run_sequential Src Iface Errs nodes deps src ai am fr i0 e0)) (tdeps nodes deps s)) = Some b.
+Proof. exact ProofsBlocker.blocker_reported_is_sequential_semantics. Qed.
+
+(* the FULL statement (printed diagnostics + blocker = those of the sequential build) is refuted by the faithful model:
+   two independent SCCs in one batch, the second blocks; reproduced on the real code (`-n 1`), see notes: finding *)
+Theorem blocker_run_reports_sequential_blocker_refuted : ~ blocker_output_eq_sequential.
+Proof. exact blocker_output_refuted. Qed.
+
+Print Assumptions blocker_run_is_coarse_run.
+Print Assumptions blocker_run_diagnostics_sequential.
+Print Assumptions blocker_run_reports_sequential_blocker_partial.
+Print Assumptions blocker_run_reports_sequential_blocker_refuted.
 
 (* the hypotheses are satisfiable: a diamond with a cycle-free tail is a well-formed DAG ... *)
 Definition ex_nodes := [0; 1; 2; 3; 4].
